@@ -1,4 +1,5 @@
 import ShredModel.Lemmas.Scenario
+import ShredModel.Lemmas.NestedTop
 /-!
 # C04 — exactly once
 
@@ -29,4 +30,20 @@ theorem C04_exactly_once (l : List (Ev SysTag)) (hl : Traces sc.plan l) (x : Sys
 end Scenario
 end Shred
 
+namespace Shred
+/-- **C04 with batches, at any nesting depth**: every instance — a system inside a batch once
+per inner dispatch — fetches and drops exactly once. -/
+theorem C04_exactly_once_nested {D : SysTag → Decl} (L : Level D) (par : Bool) (pfx : Inst) (l : List (Ev Inst))
+    (hl : Traces (L.task par pfx) l) (x : Inst) (hx : x ∈ (L.task par pfx).sys) :
+    l.count (Ev.F x) = 1 ∧ l.count (Ev.D x) = 1 :=
+  traces_once hl (L.nodup par pfx) x hx
+
+/-- a controller that dispatches `n` times contributes `n` instances of every inner system -/
+theorem C04_batch_instances (inner : Inst → Task Inst) (inst : Inst) (n : Nat) :
+    (iterBody inner inst n 0).sys = (List.range' 0 n).flatMap fun j => (inner (inst ++ [j])).sys :=
+  sys_iterBody inner inst n 0
+end Shred
+
 #print axioms Shred.Scenario.C04_exactly_once
+#print axioms Shred.C04_exactly_once_nested
+#print axioms Shred.C04_batch_instances
